@@ -404,11 +404,34 @@ func (b *BaseStore) holdsOnlyOwnEntries(log ipfslog.Log) bool {
 	return true
 }
 
+// isStoredUnderItsAddress tells whether the address an entry was fetched by
+// is the one its contents are written under. Fetching guarantees the digest
+// of the block only: the same block can be asked for under a CID of another
+// codec or version, and another encoding of the same fields has another
+// digest. Announced heads are checked the same way by Sync.
+func (b *BaseStore) isStoredUnderItsAddress(ctx context.Context, e ipfslog.Entry) bool {
+	hash, err := b.IO().Write(ctx, b.IPFS(), e, nil)
+
+	return err == nil && hash.Equals(e.GetHash())
+}
+
+// holdsOnlyEntriesStoredUnderTheirAddress tells whether every entry of a
+// fetched log passes isStoredUnderItsAddress.
+func (b *BaseStore) holdsOnlyEntriesStoredUnderTheirAddress(ctx context.Context, log ipfslog.Log) bool {
+	for _, e := range log.GetEntries().Slice() {
+		if !b.isStoredUnderItsAddress(ctx, e) {
+			return false
+		}
+	}
+
+	return true
+}
+
 // joinEntriesOneByOne merges into oplog the entries of l that are accepted on
 // their own, keeping at most amount entries when amount is positive.
-func (b *BaseStore) joinEntriesOneByOne(oplog ipfslog.Log, l ipfslog.Log, amount int) {
+func (b *BaseStore) joinEntriesOneByOne(ctx context.Context, oplog ipfslog.Log, l ipfslog.Log, amount int) {
 	for _, e := range l.GetEntries().Slice() {
-		if e.GetLogID() != b.id {
+		if e.GetLogID() != b.id || !b.isStoredUnderItsAddress(ctx, e) {
 			continue
 		}
 
@@ -683,6 +706,8 @@ func (b *BaseStore) Load(ctx context.Context, amount int) error {
 			span.AddEvent("store-heads-joining")
 			if !b.holdsOnlyOwnEntries(l) {
 				inErr = fmt.Errorf("the head leads to entries of another database")
+			} else if !b.holdsOnlyEntriesStoredUnderTheirAddress(ctx, l) {
+				inErr = fmt.Errorf("the head leads to entries that are not stored under their address")
 			} else {
 				_, inErr = oplog.Join(l, size)
 			}
@@ -694,7 +719,7 @@ func (b *BaseStore) Load(ctx context.Context, amount int) error {
 				// the refused ones being left out: do the same here, so that what
 				// the store held before it was closed is not forgotten
 				b.logger.Debug("unable to join the log of a cached head, joining its entries one at a time", zap.Error(inErr))
-				b.joinEntriesOneByOne(oplog, l, amount)
+				b.joinEntriesOneByOne(ctx, oplog, l, amount)
 			} else {
 				span.AddEvent("store-heads-joined")
 			}
@@ -1109,6 +1134,14 @@ func (b *BaseStore) replicationLoadComplete(ctx context.Context, logs []ipfslog.
 		// heads, where it can push a valid entry it links to out of the head set
 		if !b.holdsOnlyOwnEntries(log) {
 			b.Logger().Debug("warning: fetched entries of another database were discarded")
+			continue
+		}
+
+		// neither is an entry fetched under an address that is not the one of
+		// its contents (it would be merged next to the same entry under its
+		// real address)
+		if !b.holdsOnlyEntriesStoredUnderTheirAddress(ctx, log) {
+			b.Logger().Debug("warning: fetched entries that are not stored under their address were discarded")
 			continue
 		}
 
